@@ -71,6 +71,14 @@ CHECKS.update({
          "4.4M cases in quick: every directive and mnemonic x every operand list of length 0-2 over a 29-entry dictionary of valid, boundary and hostile operand texts x 5 contexts (exhaustive), every list of length 3 alone (thorough: in every context, 19M), 50k (thorough 2M) random line/token/byte mutations of generated valid programs and of the repository's fixtures, ~150 stress inputs (nesting depth to 30000, recursion through .equ/.set/macros, absurd .org/.byte, 64 KiB tokens). Each build runs in a worker process (8 MiB stack, 1 GiB address space, 10 s watchdog with a 30 s re-run): the outcome must be a result or an error value; a panic, stack overflow, allocation failure or timeout is a violation. Thorough adds a libFuzzer campaign on raw bytes.",
          "'Promptly' is judged with a 10 s / 30 s threshold for inputs <= 64 KiB that normally take < 10 ms. Special files (/dev/zero etc.) as include targets are outside the dictionary. Worker pool failures exit 2, never 1.",
          "DESIGN.md §5 C16"),
+ "C17": ("model-based generation of build histories (sequential / concurrent / fresh-process operations) with an equality invariant against a fresh-process reference",
+         "2k (quick) / 100k (thorough) generated histories: a pool of 3-7 programs (generated valid and failing programs, six families that give one shared name different meanings across programs - .equ, macro, .device, .define, label/.set/.def, messages - and include trees built with build_file) and 6-17 operations (build in-process, build concurrently in 2-16 threads for 1-3 rounds, build in a fresh process). The reference result of each program is its result in a fresh worker process; every later result in the history must be identical (BuildResult or error text).",
+         "Real OS threads, not an owned scheduler: an interleaving-specific race would only be found by chance; the realistic failure (shared mutable state between builds) is visible sequentially as well. Repetition inside one process exercises different HashMap seeds.",
+         "DESIGN.md §5 C17"),
+ "C18": ("proptest CLI invocations in fresh directories; differential against build_file in the harness, outputs decoded with the independent Intel HEX reader, directory snapshot comparison",
+         "800 (quick) / 20k (thorough) runs of the avra-rs binary built from the tree: 11 kinds of source (valid code / code+EEPROM / EEPROM only / empty / syntax error / semantic error / missing include / nonexistent / local include / above 64 KiB / messages) x file-name shapes x relative/absolute source path x -o/-e each absent, writable, missing parent directory or an existing directory x -v x short/long options x pre-existing output files with sentinel content. Success: exit 0, <stem>.hex / <stem>.eep.hex (or -o/-e) decode to exactly the library's images, nothing else changes. Failing build: non-zero exit, a diagnostic, directory tree byte-for-byte unchanged. Unwritable output: non-zero exit and a diagnostic.",
+         "Unwritable locations are limited to what root cannot write either (missing parent directory, target is a directory). An empty flash/EEPROM image may be represented by no file, an EOF-only file or an untouched pre-existing file (the statement does not say). The CLI is the debug build of the snapshot.",
+         "DESIGN.md §5 C18"),
 })
 NOT_YET = {}
 
